@@ -464,9 +464,8 @@ def _virtual_calls(fn: ast.FunctionDef, call: ast.Call) -> List[ast.Call]:
                 k.value = Sub(full).visit(k.value)
         ast.copy_location(vc, call)
         ast.fix_missing_locations(vc)
-        for x in ast.walk(vc):
-            for ch in ast.iter_child_nodes(x):
-                ch._parent = x          # type: ignore[attr-defined]
+        from ..model import _set_parents
+        _set_parents(vc)
         vc._parent = getattr(call, "_parent", None)      # type: ignore[attr-defined]
         out.append(vc)
     return out
